@@ -292,3 +292,40 @@ func (fc *FnCtx) onIndex(st *State, x *ast.IndexExpr, i T) {
 		}
 	}
 }
+
+// onChan applies an `on send CH` / `on recv CH` block to a channel operation on variable CH.
+func (fc *FnCtx) onChan(st *State, kind string, ch ast.Expr, at ast.Node) {
+	if fc.contract == nil || st == nil {
+		return
+	}
+	name := strings.ReplaceAll(fc.src(unparen(ch)), " ", "")
+	for _, oc := range fc.contract.OnCalls {
+		if oc.Callee != kind+":"+name {
+			continue
+		}
+		for k, cl := range oc.Requires {
+			if !fc.clauseActive(cl) {
+				continue
+			}
+			env := &specEnv{fc: fc, st: st, old: fc.entry, at: at.Pos(), scopeNode: at}
+			t := fc.specBool(st, cl.Expr, env)
+			fc.curEnv = env
+			fc.assert(st, "requires", kind+"["+name+"]."+clauseName("requires", cl, k), t, at.Pos(), cl.Src)
+			fc.curEnv = nil
+		}
+		type upd struct {
+			name string
+			v    Val
+		}
+		var upds []upd
+		for _, ef := range oc.Effects {
+			if ef.Expr == nil {
+				continue
+			}
+			upds = append(upds, upd{ef.Target, fc.specVal(st, ef.Expr, &specEnv{fc: fc, st: st, old: fc.entry, at: at.Pos(), scopeNode: at})})
+		}
+		for _, u := range upds {
+			st.ghost[u.name] = u.v
+		}
+	}
+}
